@@ -9,7 +9,8 @@ IMPORTS = ("From TkModel Require Import Base Dec Acct Txn Accept Journal.\n"
 
 UNI_WS = [" ", " ", "　", "\u0085", "\x0b", "\x0c"]
 ACC_FIRST = J.COMPS_FIRST + ["Ω", "$", "¥en", "µ", "½", "x·y", "ÅÄÖ"]
-ACC_REST = J.COMPS_REST + ["0", "-", "_", "·", "é́", "2024-01", "‿"]
+ACC_REST = J.COMPS_REST + ["0", "a-", "b_", "x·", "é́", "2024-01", "‿", "Ω1"]
+ACC_BAD = ["-", "_", "·", "-x", "_1", "·a"]     # components the account check of the semantic layer refuses
 COMM = ["EUR", "USD", "ACME", "He·bar", "€", "$", "£", "x-1", "µg"]
 CODE_POOL = ["#1", "a b", "", " pad ", "X-17", "ünï ¢", "a;b", "a\tb", "12", "#", "a:b", " nb ", "@=", "\"q\""]
 DESC_POOL = ["desc", "it's (c)", "ünï ¢", "  leading", "trailing  ", "", "'quoted'", "; not a comment", "(x) [y] {z} <w>",
@@ -32,6 +33,8 @@ class G:
         accs = []
         for _ in range(r.randint(2, 5)):
             comps = [r.choice(ACC_FIRST)] + [r.choice(ACC_REST) for _ in range(r.randint(0, 3))]
+            if r.random() < 0.02:
+                comps.append(r.choice(ACC_BAD))
             accs.append(":".join(comps))
         self.jg.accounts = sorted(set(self.jg.accounts + accs))
         self.jg.comms = r.sample(["", ""] + COMM, r.randint(1, 3))
@@ -48,8 +51,6 @@ class G:
         mo = r.randint(1, 12)
         dim = [31, 29 if (y % 4 == 0 and (y % 100 != 0 or y % 400 == 0)) else 28, 31, 30, 31, 30, 31, 31, 30, 31, 30, 31][mo - 1]
         d = r.choice([1, dim, r.randint(1, dim)])
-        if y == 9999 and mo == 12 and d > 29:
-            d = 29
         date = "%04d-%02d-%02d" % (y, mo, d)
         k = r.random()
         if k < 0.2:
